@@ -47,6 +47,20 @@ impl Ctx {
     }
 }
 
+/// ahash (hash aggregation, hash join, ...) derives the per-map seed from a counter that starts
+/// at, and advances by, the address of a heap allocation - which depends on what the parent
+/// process had allocated before the fork. Install a source that depends on the case only.
+fn install_hash_seed_source(seed: u64) {
+    use std::sync::atomic::{AtomicUsize, Ordering::Relaxed};
+    struct Det(AtomicUsize);
+    impl ahash::random_state::RandomSource for Det {
+        fn gen_hasher_seed(&self) -> usize {
+            self.0.fetch_add(0x9E37_79B9_7F4A_7C15, Relaxed)
+        }
+    }
+    let _ = ahash::random_state::set_random_source(Det(AtomicUsize::new(seed as usize)));
+}
+
 /// Run one case to completion in this process. Must be called at most once per process.
 pub fn run_case(case: &Case, want_log: bool) -> RunResult {
     let mut master = Rng::new(case.seed);
@@ -54,6 +68,7 @@ pub fn run_case(case: &Case, want_log: bool) -> RunResult {
     let tokio_seed = master.fork(2).next();
     let sched_rng = master.fork(3);
     interpose::seed_entropy(entropy_seed);
+    install_hash_seed_source(entropy_seed);
     install_panic_hook();
     let base = format!("/dev/shm/rlsim.{}", std::process::id());
     let _ = std::fs::remove_dir_all(&base);
